@@ -11,6 +11,7 @@ CLASS = {
     ("urn:xmpp:hints", "store"): P, ("urn:xmpp:hints", "no-permanent-store"): P, ("urn:xmpp:hints", "no-store"): P, ("urn:xmpp:hints", "no-copy"): P,
     ("urn:xmpp:sid:0", "stanza-id"): P, ("urn:xmpp:sid:0", "origin-id"): P,
     ("urn:xmpp:mix:core:1", "mix"): P, ("urn:xmpp:eme:0", "encryption"): P,
+    ("http://jabber.org/protocol/address", "addresses"): P,     # XEP-0033 extended addressing is routing data
     ("urn:xmpp:fallback:0", "fallback"): B,
     ("", "body"): S, ("", "subject"): S, ("", "thread"): S,
     ("urn:xmpp:call-invites:0", "invite"): S, ("urn:xmpp:call-invites:0", "accept"): S, ("urn:xmpp:call-invites:0", "reject"): S,
@@ -96,6 +97,16 @@ def load_pool():
                 x = c.toxml()
                 if x not in pool.setdefault(k, []):
                     pool[k].append(x)
+    # extended addresses of every XEP-0033 type (the fixtures only carry one 'to' example, if any)
+    A = "http://jabber.org/protocol/address"
+    ad = lambda t, j, extra="": "<address type='%s' jid='%s'%s/>" % (t, j, extra)
+    pool.setdefault((A, "addresses"), [])
+    pool[(A, "addresses")] += [
+        "<addresses xmlns='%s'>%s</addresses>" % (A, ad("to", "hildjj@jabber.org/Work", " desc='Joe Hildebrand'") + ad("cc", "jer@jabber.org/Home", " desc='Jeremie Miller'")),
+        "<addresses xmlns='%s'>%s</addresses>" % (A, ad("bcc", "blind-copy-recipient@example.org")),
+        "<addresses xmlns='%s'>%s</addresses>" % (A, ad("to", "first-recipient@example.org") + ad("bcc", "hidden-recipient@example.com", " delivered='true'") + ad("replyto", "reply-here@example.org") + ad("noreply", "noreply-addr@example.org")),
+        "<addresses xmlns='%s'>%s</addresses>" % (A, ad("replyroom", "room-for-replies@conference.example.org") + ad("ofrom", "original-sender@example.net")),
+    ]
     return pool
 
 
